@@ -16,6 +16,8 @@ RULE = ("Events.tla holds the specification's event-type tables per event kind a
 
 K_JR = "events/redacted-event-fails-to-deserialize/m.room.join_rules"
 K_MSG = "events/content-serializes-duplicate-keys/m.room.message-custom-msgtype-with-relation"
+K_TPI = "events/spec-shaped-event-fails-to-deserialize/m.room.member-with-v11-redacted-third-party-invite-as-prev-content"
+K_MEGOLM = "events/spec-shaped-event-fails-to-deserialize/m.room.encrypted-megolm-without-sender_key-and-device_id"
 
 
 def run(rep, tier):
@@ -38,7 +40,14 @@ def run(rep, tier):
         if r["panic"]:
             rep.violation("events/panic/%s" % r["type"], det)
         elif not r["ok"]:
-            cls = K_JR if (r["type"] == "m.room.join_rules" and r["redacted_in"] and "newtype struct" in r["err"]) else "events/%s-event-fails-to-deserialize/%s" % ("redacted" if r["redacted_in"] else "spec-shaped", r["type"])
+            if r["type"] == "m.room.join_rules" and r["redacted_in"] and "newtype struct" in r["err"]:
+                cls = K_JR
+            elif r["tag"] == "v11-redacted-invite-as-prev-content" and "display_name" in r["err"]:
+                cls = K_TPI
+            elif r["tag"] == "megolm-without-deprecated-fields" and ("sender_key" in r["err"] or "device_id" in r["err"]):
+                cls = K_MEGOLM
+            else:
+                cls = "events/%s-event-fails-to-deserialize/%s" % ("redacted" if r["redacted_in"] else "spec-shaped", r["type"])
             rep.violation(cls, det)
         elif r["hascontent"] and not r["nodup"]:
             cls = K_MSG if (r["type"] == "m.room.message" and r["tag"] == "custom-msgtype-with-relation") else "events/content-serializes-duplicate-keys/%s" % r["type"]
